@@ -225,6 +225,8 @@ where
 
                 // Check if the local member was removed by this commit (see process_commit)
                 if !mls_group.is_active() || mls_group.own_leaf().is_none() {
+                    self.epoch_snapshots
+                        .enforce_retention(self.storage(), &group.mls_group_id);
                     return match self.handle_local_member_eviction(&group.mls_group_id, event) {
                         Ok(_) => Ok(MessageProcessingResult::Commit {
                             mls_group_id: group.mls_group_id.clone(),
@@ -255,6 +257,8 @@ where
                     }
                     return Err(e);
                 }
+                self.epoch_snapshots
+                    .enforce_retention(self.storage(), &group.mls_group_id);
 
                 // Update self-update tracking if this was a self-update commit
                 if is_self_update {
